@@ -118,7 +118,7 @@ func stressRound(f *family, r *vh.Rng, nG, nOps int, kinds []string, prefill []c
 	close(start)
 	select {
 	case <-done:
-	case <-time.After(10 * time.Second):
+	case <-time.After(hangLimit):
 		return nil, true
 	}
 	hist = append(hist, pre...)
